@@ -8,14 +8,14 @@
   `unicode.IsLetter/IsDigit` is exact on ASCII; for runes ≥ 0x80 it is the parameter
   `U : Nat → Bool` ("letter or digit") — every theorem holds for every `U`; the driver's
   instance is exact on the ranges the correspondence generator draws from.
-  Constants, tables and the shape of the deciding expressions come from `GIV.Gen.Imports`.
+  Constants, tables and the shape of the deciding expressions come from `GIV.Gen.ImportsBuild`.
 -/
 import GIV.Basic
-import GIV.Gen.Imports
+import GIV.Gen.ImportsBuild
 
 namespace GIV.Build
 open GIV
-open GIV.Gen.Imports
+open GIV.Gen.ImportsBuild
 
 abbrev Tags := Bytes → Bool
 
